@@ -231,6 +231,61 @@ theorem translated_exDeliverMessage (σ : Env) :
   by_cases h1 : σ "e.source.AcceptsMessage#0" = 0 <;> by_cases h2 : σ "e.source.Receive#0" = 0 <;>
   minigo_simp [Trans.exDeliverMessage, h1, h2]
 
+
+/-- what deliverMessageToNode reads at one node: whether the node accepts the type and whether its Receive fails -/
+def bindNode (σ : Env) (accepts fails : Bool) : Env :=
+  upd (upd σ "node.NodeProcessor.AcceptsMessage#0" (if accepts then 1 else 0)) "node.NodeProcessor.Receive#0" (if fails then 1 else 0)
+
+mutual
+/-- deliverMessageToNode as Go runs it on a tree: the translated body at the node, then — its `for range node.Children` event —
+the same function on every child in order; recipients and failures are read off the `Receive` / `addError` calls -/
+def codeWalkN (body : S) (t : String) (σ : Env) (w : Walk) : RNode → Walk
+  | .mk subs fail cs =>
+    let r := run body (bindNode σ (subs.contains t) fail)
+    let me := w.next
+    let w1 : Walk := ⟨if r.calls.any (fun c => c.1 == "node.NodeProcessor.Receive") then w.recipients ++ [me] else w.recipients,
+                      if r.calls.any (fun c => c.1 == "errorList.addError") then w.errors ++ [me] else w.errors, me + 1⟩
+    if r.calls.any (fun c => c.1 == "foreach node.Children: e.deliverMessageToNode") then codeWalkL body t σ w1 cs else w1
+def codeWalkL (body : S) (t : String) (σ : Env) (w : Walk) : List RNode → Walk
+  | [] => w
+  | c :: cs => codeWalkL body t σ (codeWalkN body t σ w c) cs
+end
+
+theorem any_name_eq (l : List (String × List Int)) (nm : String) :
+    l.any (fun c => c.1 == nm) = (l.map (·.1)).contains nm := by
+  induction l with
+  | nil => simp
+  | cons x rest ih =>
+    have ih' : (rest.any fun c => nm == c.fst) = decide (nm ∈ List.map (fun x => x.fst) rest) := by
+      simpa [BEq.comm] using ih
+    simp [BEq.comm, ih']
+
+theorem exDeliverToNode_calls (σ : Env) (a f : Bool) :
+    (run Trans.exDeliverToNode (bindNode σ a f)).calls.map (·.1) =
+      ["node.NodeProcessor.AcceptsMessage"] ++ (if a then ["node.NodeProcessor.Receive"] ++ (if f then ["errorList.addError"] else []) else [])
+        ++ ["foreach node.Children: e.deliverMessageToNode"] := by
+  have h := translated_exDeliverToNode (bindNode σ a f)
+  have hc : (run Trans.exDeliverToNode (bindNode σ a f)).calls = (obs Trans.exDeliverToNode (bindNode σ a f)).calls := rfl
+  rw [hc, h]
+  cases a <;> cases f <;> simp [TransExpected.exDeliverToNode, bindNode]
+
+mutual
+/-- **the tree walk of deliverMessageToNode = the model's `deliverN`**: same recipients, same failures, same numbering, for every
+tree, message type and starting state of the walk -/
+theorem translated_walkN (t : String) (σ : Env) (w : Walk) : (n : RNode) →
+    codeWalkN Trans.exDeliverToNode t σ w n = deliverN t w n
+  | .mk subs fail cs => by
+    have hn := exDeliverToNode_calls σ (subs.contains t) fail
+    simp only [codeWalkN, deliverN, any_name_eq, hn]
+    cases hc : subs.contains t <;> cases fail <;> simp [translated_walkL t σ _ cs]
+theorem translated_walkL (t : String) (σ : Env) (w : Walk) : (l : List RNode) →
+    codeWalkL Trans.exDeliverToNode t σ w l = deliverL t w l
+  | [] => by simp [codeWalkL, deliverL]
+  | c :: cs => by
+    simp only [codeWalkL, deliverL]
+    rw [translated_walkN t σ w c, translated_walkL t σ _ cs]
+end
+
 end Translated
 
 theorem closure_unchanged : GeneratedClo.C11 = ExpectedClo.C11 := by rfl
